@@ -340,6 +340,11 @@ def leg_geometry(ctx, P, spec):
             if abs(impl["voldata"][ax][i] - ve) > TOL_SUM * axis_measure_outer(spec, ax):
                 bad.set(f"cell_volume_data[{ax}][{i}]={impl['voldata'][ax][i]!r} != closed form {ve!r}")
                 break
+    for name in ("dx", "volume"):
+        if not np.all(np.isfinite(np.ravel(impl[name]))):
+            bad.set(f"non-finite {name}")
+    if not all(np.all(np.isfinite(c)) for c in impl["coords"]) or not np.all(np.isfinite(impl["cellvols"])):
+        bad.set("non-finite coordinates / cell volumes")
     vol_e = float(np.prod([axis_measure(spec, ax) for ax in range(len(b))]))
     if abs(impl["volume"] - vol_e) > TOL_SUM * vs:
         bad.set(f"volume={impl['volume']!r} != closed form {vol_e!r}")
@@ -497,7 +502,7 @@ def leg_integrate(ctx, P, spec, rng):
         meas = float(np.prod([axis_measure(spec, ax) for ax in sub])) if sub else 1.0
         msc = float(np.prod([axis_measure_outer(spec, ax) for ax in sub])) if sub else 1.0
         ret_shape = tuple(n for ax, n in enumerate(spec["shape"]) if ax not in sub)
-        if one.shape != ret_shape or np.max(np.abs(one - meas)) > TOL_SUM * msc:
+        if one.shape != ret_shape or not np.all(np.isfinite(one)) or np.max(np.abs(one - meas)) > TOL_SUM * msc:
             ctx.monitor_fail("integrate", case, {"integrate(1)": one.tolist(), "shape": list(one.shape)},
                              {"measure": meas, "shape": list(ret_shape)},
                              f"{spec['cls']}: integrate(1, axes) is not the measure of the selected axes",
@@ -550,7 +555,7 @@ def leg_project(ctx, P, spec, rng):
             ctx.disagree("project", case, "value", f"{type(e).__name__}: {e}", "real code raised")
             continue
         ctx.monitor_evals += 1
-        if abs(pint - fint) > TOL_SUM * vs * dscale:
+        if not (math.isfinite(pint) and math.isfinite(fint)) or abs(pint - fint) > TOL_SUM * vs * dscale:
             ctx.monitor_fail("project", case, {"projected.integral": pint, "field.integral": fint},
                              "equal integrals", f"{spec['cls']}: projection changes the integral",
                              key={"grid_class": spec["cls"], "leg": "project"})
@@ -735,6 +740,8 @@ def leg_transform(ctx, P, spec, rng):
         bad = None
         if res.shape != pts_in.shape[:-1] + (kout,):
             bad = f"result shape {res.shape} for input shape {pts_in.shape}"
+        elif not np.all(np.isfinite(res)):
+            bad = f"non-finite result {res.tolist()} for finite points"
         else:
             try:
                 back = np.array(g.transform(res.copy(), tgt, src), dtype=float)
@@ -946,6 +953,8 @@ def leg_normalize(ctx, P, spec, rng):
         tolv = 1e-9 * np.maximum(L, np.maximum(np.abs(lo), np.abs(hi)))
         if flat_res.shape != flat_in.shape:
             bad = f"result shape {res.shape} for input {np.shape(pts_arg)}"
+        elif not np.all(np.isfinite(flat_res)):
+            bad = f"non-finite result {flat_res.tolist()} for finite points"
         else:
             again = flat_pts(np.array(g.normalize_point(res.copy().reshape(np.shape(pts_arg)) if not scalar else float(res),
                                                         reflect=reflect), dtype=float), k)
@@ -1113,6 +1122,8 @@ def leg_distance(ctx, P, spec, rng, force=None):
         t = 1e-11 * big
         if fdv.shape != raw.shape or fdist.shape != (len(raw),):
             bad = f"shapes: difference {dv.shape}, distance {dist.shape} for points {np.shape(a1)}"
+        elif not (np.all(np.isfinite(fdv)) and np.all(np.isfinite(fdist)) and np.all(np.isfinite(dist_rev))):
+            bad = f"non-finite difference vector / distance {fdv.tolist()} {fdist.tolist()} for finite points"
         else:
             if np.max(np.abs(fdist - np.ravel(dist_rev))) > t:
                 bad = f"not symmetric: d(p1,p2)={fdist.tolist()} d(p2,p1)={np.ravel(dist_rev).tolist()}"
@@ -1241,6 +1252,8 @@ def leg_random(ctx, P, spec, rng):
         bad = None
         if not inside:
             bad = f"generated point {pt.tolist()} ({coords}) is not contained"
+        if not (np.all(np.isfinite(pt)) and np.all(np.isfinite(asgrid))):
+            bad = f"non-finite random point {pt.tolist()}"
         for ax, (lo, hi) in enumerate(b):
             lo_, hi_ = float(lo), float(hi)
             lo_b = lo_ + bd if (not sym or ax == 1 or avoid) else lo_
